@@ -81,8 +81,8 @@ CHECKS = {
    design="DESIGN.md §5 C15"),
  "C16": dict(
    technique="property-based testing: one-deviation echoes for commands; fault injection at every step of every user request kind",
-   text="(1) Command sets over the five control types, 8/16-bit indices, 1-3 headers, direct or select-before-operate; the harness echoes faithfully or with exactly one deviation at step 1 or 2; success iff faithful, OPERATE only after a faithful SELECT echo with seq+1 and identical objects, nothing sent after a deviation; headers are closed explicitly or by the builder itself, and every step's objects on the wire are compared with a reference encoding of what the user asked for. (2) Twelve request kinds (read, commands, three time-sync procedures, restarts, dead-band write, empty-response request, link check, file read with a FileReader) x fault after step k (reply lost, disconnect, channel disabled, association removed, none): the user future resolves exactly once with Ok iff no fault and otherwise with the corresponding error (reply lost -> ResponseTimeout, disable -> Disabled, disconnect -> Link), the FileReader gets exactly one terminal callback, within (steps+1) response timeouts of virtual time.",
-   note="Master shutdown by dropping all handles is not generated; which error the in-flight request of a removed association gets is not judged. Directory read / file info / open / write / close / auth share the one-step machinery and are not generated separately.",
+   text="(1) Command sets over the five control types, 8/16-bit indices, 1-3 headers, direct or select-before-operate; the harness echoes faithfully or with exactly one deviation at step 1 or 2; success iff faithful, OPERATE only after a faithful SELECT echo with seq+1 and identical objects, nothing sent after a deviation; headers are closed explicitly or by the builder itself, and every step's objects on the wire are compared with a reference encoding of what the user asked for. (2) Eighteen request kinds (read, commands, three time-sync procedures, restarts, dead-band write, empty-response request, link check, file read with a FileReader, file authentication / open / write block / close / info, directory read) x fault after step k (reply lost - optionally with a link frame, an unsolicited response, a stale or a foreign response arriving instead -, disconnect, channel disabled, association removed, none): the user future resolves exactly once with Ok iff no fault and otherwise with the corresponding error (reply lost -> ResponseTimeout, disable -> Disabled, disconnect -> Link), the FileReader gets exactly one terminal callback, within (steps+1) response timeouts of virtual time.",
+   note="Master shutdown by dropping all handles is not generated; which error the in-flight request of a removed association gets is not judged.",
    design="DESIGN.md §5 C16"),
  "C17": dict(
    technique="stateful property-based testing against the ordering relation of the statement (scripted outstation)",
